@@ -37,6 +37,9 @@ func genRulesFile(r *rand.Rand) rulesFile {
 	var targets []ruleTarget
 	eolCR := chance(r, 0.2)
 	nRules := 1 + r.Intn(6)
+	if chance(r, 0.04) {
+		nRules = 400 // every id the formula below can make: a rules file of several buffer-fulls (10 KiB … 25 KiB)
+	}
 	used := map[string]bool{}
 	if chance(r, 0.7) {
 		lines = append(lines, "# ------------------------------------------------------------------------", "# OWASP CRS ver.4.0.0", "#", "")
